@@ -33,6 +33,8 @@ def init_worker():
     bytesshim.install(tape, with_zlib=False)
     import shims
     shims.install_isinstance(tape)
+    import numerals
+    numerals.install()          # _get_pzx_block renders pulse counts and durations into its info lines
 
 
 def new_res():
@@ -231,6 +233,180 @@ class FakeFile:
         return False
 
 
+PULS_FORMS = ('short', 'count', 'long', 'count+long')
+
+
+def puls_words(form, c, d):
+    """PZX PULS encoding (http://zxds.raxoft.cz/docs/pzx.txt): [0x8000|count] [0x8000|duration high 15 bits] duration low word"""
+    if form == 'short':          # count 1, duration < 0x8000
+        return [d]
+    if form == 'count':          # 0x8000|count (count >= 1... the spec also allows 0), duration < 0x8000
+        return [0x8000 + c, d]
+    if form == 'long':           # count 1, duration < 65536 spelled with the extension word 0x8000 (high bits 0)
+        return [0x8000, d]
+    return [0x8000 + c, 0x8000 + d // 65536, d % 65536]
+
+
+def check_puls(item):
+    """('puls', forms): a PULS block (and a DATA block after it) whose fields are symbolic, through _get_pzx_block"""
+    _, forms, databits = item
+    st = Stats()
+    res = new_res()
+    import skoolkit.tape as tape
+    name = 'PZX PULS block with entries %s%s' % ('+'.join(forms), ', then DATA of %d bits' % databits if databits else '')
+
+    def fn(path):
+        want = []
+        words = []
+        for k, form in enumerate(forms):
+            c = sym_int('c%d' % k, 1, 0x7FFF) if 'count' in form else 1
+            if form in ('short', 'count'):
+                d = sym_int('d%d' % k, 0, 0x7FFF)
+            elif form == 'long':
+                d = sym_int('d%d' % k, 0, 0xFFFF)
+            else:
+                d = sym_int('d%d' % k, 0, 0x7FFFFFFF)
+            want.append((c, d))
+            words += puls_words(form, c, d)
+        body = []
+        for w in words:
+            body += [w % 256, w // 256]
+        data = [ord(ch) for ch in 'PULS'] + [len(body) % 256, len(body) // 256, 0, 0] + body
+        blocks = []
+        end, block, rom = tape._get_pzx_block(data, 0, 1, False)
+        blocks.append(block)
+        dwant = None
+        if databits:
+            tail = sym_int('tail', 0, 65535)
+            lvl = sym_int('lvl', 0, 1)
+            s0 = [sym_int('s0_%d' % i, 1, 65535) for i in range(1)]
+            s1 = [sym_int('s1_%d' % i, 1, 65535) for i in range(2)]
+            nb = (databits + 7) // 8
+            payload = [data_byte('b%d' % i) for i in range(nb)]
+            cnt = databits + lvl * 0x80000000
+            dbody = [cnt % 256, cnt // 256 % 256, cnt // 65536 % 256, cnt // 16777216, tail % 256, tail // 256, len(s0), len(s1)]
+            for w in s0 + s1:
+                dbody += [w % 256, w // 256]
+            dbody += payload
+            dstart = len(data)
+            data += [ord(ch) for ch in 'DATA'] + [len(dbody) % 256, len(dbody) // 256, 0, 0] + dbody
+            end2, dblock, _ = tape._get_pzx_block(data, dstart, 2, rom)
+            blocks.append(dblock)
+            dwant = (lvl, tail, s0, s1, payload, (databits % 8) or 8, len(data), end2)
+        return want, len(data) if not databits else dstart, end, block, dwant, blocks
+
+    def on(p, out):
+        res['obligations'] += 1
+        if isinstance(out, tuple) and out[0] == 'exception':
+            r, mod = p.check(model=True)
+            vals = {str(d): mod[d].as_long() for d in mod.decls() if hasattr(mod[d], 'as_long') and not str(d).startswith(('q!', 'r!', 'let!', 'ti!'))} if mod is not None else {}
+            res['violations'].append(dict(key='%s:exception' % name, text='%s raises %r with %r' % (name, out[1], vals), case=dict(kind='puls', item=list(item), vals=vals)))
+            return
+        want, plen, end, block, dwant, blocks = out
+        diffs, names, structural = [], [], []
+        if end != plen:
+            structural.append('PULS block of %d bytes ends at %r' % (plen, end))
+        got = list(block.timings.pulses)
+        pol = block.timings.polarity
+        # the first pulse is dropped (and the level inverted) when its count is odd and its duration 0: decide that case split here
+        c0, d0 = want[0]
+        odd_zero = p.branch(z3.And(bv(c0) % 2 == 1, bv(d0) == 0))
+        exp = want[1:] if odd_zero else want
+        if pol != (1 if odd_zero else 0):
+            structural.append('initial level %r' % (pol,))
+        if len(got) != len(exp):
+            structural.append('%d pulse entries parsed, %d expected' % (len(got), len(exp)))
+        else:
+            for k, ((gc, gd), (wc, wd)) in enumerate(zip(got, exp)):
+                diffs.append(bv(gc) != bv(wc)); names.append('count of entry %d' % k)
+                diffs.append(bv(gd) != bv(wd)); names.append('duration of entry %d' % k)
+        if dwant:
+            lvl, tail, s0, s1, payload, ub, dlen, end2 = dwant
+            tm = blocks[1].timings
+            if end2 != dlen:
+                structural.append('DATA block ends at %r, not %d' % (end2, dlen))
+            if tm is None or blocks[1].data is None:
+                structural.append('DATA block has no timings/data')
+            else:
+                if len(tm.zero) != len(s0) or len(tm.one) != len(s1) or len(blocks[1].data) != len(payload):
+                    structural.append('DATA block pulse sequence or payload lengths differ')
+                else:
+                    for x, y in zip(list(tm.zero) + list(tm.one) + list(blocks[1].data), s0 + s1 + payload):
+                        diffs.append(bv(x) != bv(y)); names.append('DATA pulse width / payload byte')
+                diffs.append(bv(tm.tail) != bv(tail)); names.append('DATA tail')
+                diffs.append(bv(tm.polarity) != bv(lvl)); names.append('DATA initial level')
+                if tm.used_bits != ub:
+                    structural.append('DATA used bits %r, expected %d' % (tm.used_bits, ub))
+        if structural:
+            r, mod = p.check(model=True); which = structural
+        else:
+            r, mod, which = p.check_any(diffs, names)
+        if r == 'unknown':
+            res['inconclusive'].append(name); return
+        if r == 'sat':
+            vals = {str(d): mod[d].as_long() for d in mod.decls() if hasattr(mod[d], 'as_long') and not str(d).startswith(('q!', 'r!', 'let!', 'ti!'))}
+            res['violations'].append(dict(key='%s:%s' % (name, which[0][:50]), text='%s: %s with %r' % (name, '; '.join(dict.fromkeys(which))[:200], vals), case=dict(kind='puls', item=list(item), vals=vals)))
+            return
+        res['discharged'] += 1
+        res['nontrivial'] += 1
+        if not res['samples']:
+            res['samples'].append({'item': name, 'entries': len(want), 'verdict': 'unsat'})
+
+    try:
+        explore(fn, stats=st, on_path=on, max_paths=5000)
+    except Inconclusive as e:
+        res['inconclusive'].append('%s: %s' % (name, e))
+    return finish(res, st)
+
+
+def replay_puls(case):
+    import skoolkit.tape as tape
+    _, forms, databits = case['item']
+    v = case.get('vals') or {}
+    want, words = [], []
+    for k, form in enumerate(forms):
+        c = v.get('c%d' % k, 1) if 'count' in form else 1
+        d = v.get('d%d' % k, 0)
+        want.append((c, d))
+        words += puls_words(form, c, d)
+    body = []
+    for w in words:
+        body += [w % 256, w // 256]
+    data = [ord(ch) for ch in 'PULS'] + [len(body) % 256, len(body) // 256, 0, 0] + body
+    try:
+        end, block, rom = tape._get_pzx_block(data, 0, 1, False)
+    except Exception as e:
+        return True, 'raises %r' % e
+    exp = want[1:] if (want[0][0] % 2 and want[0][1] == 0) else want
+    bad = []
+    if list(block.timings.pulses) != exp:
+        bad.append('PULS words %r parsed as %r, expected %r' % (words, list(block.timings.pulses), exp))
+    if end != len(data):
+        bad.append('block ends at %d, not %d' % (end, len(data)))
+    if databits and not bad:
+        lvl, tail = v.get('lvl', 0), v.get('tail', 0)
+        s0 = [v.get('s0_0', 1)]; s1 = [v.get('s1_0', 1), v.get('s1_1', 1)]
+        nb = (databits + 7) // 8
+        payload = [v.get('b%d' % i, 0) for i in range(nb)]
+        cnt = databits + lvl * 0x80000000
+        dbody = [cnt % 256, cnt // 256 % 256, cnt // 65536 % 256, cnt // 16777216, tail % 256, tail // 256, 1, 2]
+        for w in s0 + s1:
+            dbody += [w % 256, w // 256]
+        dbody += payload
+        dstart = len(data)
+        data += [ord(ch) for ch in 'DATA'] + [len(dbody) % 256, len(dbody) // 256, 0, 0] + dbody
+        try:
+            end2, db, _ = tape._get_pzx_block(data, dstart, 2, rom)
+        except Exception as e:
+            return True, 'DATA block raises %r' % e
+        tm = db.timings
+        got = (list(tm.zero), list(tm.one), list(db.data), tm.tail, tm.polarity, tm.used_bits, end2)
+        exp = (s0, s1, payload, tail, lvl, (databits % 8) or 8, len(data))
+        if got != exp:
+            bad.append('DATA block parsed as %r, expected %r' % (got, exp))
+    return bool(bad), '; '.join(bad) or 'blocks parse as specified'
+
+
 def check_files(item):
     """('files', nbytes): write_tap/parse_tap, write_pzx/parse_pzx, TZX 0x10: bytes and edges"""
     _, nbytes = item
@@ -333,12 +509,14 @@ def check_files(item):
 
 
 def work(item):
-    return {'edges': check_edges, 'files': check_files}[item[0]](item)
+    return {'edges': check_edges, 'files': check_files, 'puls': check_puls}[item[0]](item)
 
 
 # ---------------------------------------------------------------------------
 def replay(case):
     import skoolkit.tape as tape
+    if case['kind'] == 'puls':
+        return replay_puls(case)
     if case['kind'] == 'files':
         if 'data' not in case:
             return False, 'no input'
@@ -451,6 +629,15 @@ def main():
         for ub in ((1, 3, 8) if args.tier == 'quick' else range(1, 9)):
             for bpol in (None, 1):
                 items.append(('edges', 'data', ub, 0, bpol, False, 1 if args.tier == 'quick' else 2, counts))
+    for f1 in PULS_FORMS:
+        items.append(('puls', (f1,), 0))
+        for f2 in PULS_FORMS:
+            items.append(('puls', (f1, f2), 0))
+    items.append(('puls', ('count', 'short', 'short'), 9))
+    items.append(('puls', ('long',), 16))
+    if args.tier == 'thorough':
+        items += [('puls', (f1, f2, f3), 0) for f1 in PULS_FORMS for f2 in PULS_FORMS for f3 in PULS_FORMS]
+        items += [('puls', ('count',), bits) for bits in range(1, 17)]
     items += [('files', n) for n in ((1, 2) if args.tier == 'quick' else (1, 2, 3))]
     if args.only:
         items = [i for i in items if args.only in harness.item_name(i)]
